@@ -140,6 +140,23 @@ func isUnsigned(t types.Type) bool {
 	return false
 }
 
+// unsignedRange: 0 <= v, and v < 2^bits for the sized unsigned types up to 32 bits (uint, uint64
+// and uintptr stay unbounded above: integers are mathematical).
+func unsignedRange(t types.Type, v *Term) *Term {
+	f := Ge(v, IntT(0))
+	if b, ok := t.Underlying().(*types.Basic); ok {
+		switch b.Kind() {
+		case types.Uint8:
+			f = And(f, Lt(v, IntT(1<<8)))
+		case types.Uint16:
+			f = And(f, Lt(v, IntT(1<<16)))
+		case types.Uint32:
+			f = And(f, Lt(v, IntT(1<<32)))
+		}
+	}
+	return f
+}
+
 const maxArrayLen = 64
 
 func arrayLen(t types.Type) int {
@@ -215,7 +232,7 @@ func freshVal(t types.Type, name string, facts *[]*Term) Val {
 	case kLeaf:
 		v := Fresh(name, leafSort(t))
 		if isUnsigned(t) && facts != nil {
-			*facts = append(*facts, Ge(v, IntT(0)))
+			*facts = append(*facts, unsignedRange(t, v))
 		}
 		if v.Sort == SStr && facts != nil {
 			*facts = append(*facts, Ge(SLen(v), IntT(0)))
@@ -271,7 +288,7 @@ func typeFacts(v Val, t types.Type, facts *[]*Term) {
 	case kLeaf:
 		if isUnsigned(t) {
 			if tm, ok := v.(*Term); ok && !tm.hasBound {
-				*facts = append(*facts, Ge(tm, IntT(0)))
+				*facts = append(*facts, unsignedRange(t, tm))
 			}
 		}
 	case kStruct:
@@ -552,7 +569,7 @@ func (h *Heap) load(p *Term, t types.Type, facts *[]*Term) Val {
 	case kLeaf:
 		v := h.loadLeaf(p, leafSort(t))
 		if isUnsigned(t) && facts != nil && !v.hasBound {
-			*facts = append(*facts, Ge(v, IntT(0)))
+			*facts = append(*facts, unsignedRange(t, v))
 		}
 		return v
 	case kStruct:
